@@ -261,6 +261,10 @@ func (c *Ctx) recoverFrame(fn *ssa.Function, site ssa.Instruction) (bool, string
 				lastWhy = "the recovered value is type-asserted without comma-ok: other panic payloads escape"
 				continue
 			}
+			if why := c.recoveredValueMisuse(rec, 0, map[ssa.Value]bool{}); why != "" {
+				lastWhy = why
+				continue
+			}
 			if errAlloc == nil {
 				lastWhy = "the function has no named error result the deferred function could set"
 				continue
@@ -337,4 +341,66 @@ func isNamedResult(fn *ssa.Function, al *ssa.Alloc) bool {
 		}
 	}
 	return false
+}
+
+// recoveredValueMisuse follows the recovered panic value (through comma-ok
+// assertions, type switches and static tree callees). It may be compared with
+// nil and handed to formatting functions (which themselves survive panicking
+// Error/String methods); it must not have methods invoked on it directly (a
+// second panic inside the deferred function is fatal) nor be retained inside the
+// returned error (an unencodable payload would make the error reply fail).
+func (c *Ctx) recoveredValueMisuse(v ssa.Value, depth int, seen map[ssa.Value]bool) string {
+	if depth > 6 || seen[v] || v.Referrers() == nil {
+		return ""
+	}
+	seen[v] = true
+	for _, ref := range *v.Referrers() {
+		switch x := ref.(type) {
+		case *ssa.DebugRef, *ssa.BinOp, *ssa.If:
+		case *ssa.TypeAssert:
+			if !x.CommaOk {
+				return "the recovered value is type-asserted without comma-ok: other panic payloads escape"
+			}
+			if w := c.recoveredValueMisuse(x, depth+1, seen); w != "" {
+				return w
+			}
+		case *ssa.Extract:
+			if w := c.recoveredValueMisuse(x, depth+1, seen); w != "" {
+				return w
+			}
+		case *ssa.MakeInterface, *ssa.ChangeInterface, *ssa.Phi:
+			if w := c.recoveredValueMisuse(x.(ssa.Value), depth+1, seen); w != "" {
+				return w
+			}
+		case *ssa.Store:
+			if x.Val != v {
+				continue
+			}
+			// only stores into a variadic argument array are fine
+			okStore := false
+			if ia, ok := x.Addr.(*ssa.IndexAddr); ok {
+				if al, ok := ia.X.(*ssa.Alloc); ok && al.Comment == "varargs" {
+					okStore = true
+				}
+			}
+			if !okStore {
+				return "the recovered panic value is retained (stored into the returned error or other memory) instead of being formatted into the message: an unencodable payload then breaks the error reply"
+			}
+		case ssa.CallInstruction:
+			com := x.Common()
+			if com.IsInvoke() && com.Value == v {
+				return "a method of the recovered value is invoked inside the deferred function: if it panics (nil-receiver Error/String of the payload) the second panic escapes the recover frame and kills the process"
+			}
+			if f := staticCallee(x); f != nil && c.P.allFns[f] {
+				for i, a := range com.Args {
+					if a == v && i < len(f.Params) {
+						if w := c.recoveredValueMisuse(f.Params[i], depth+1, seen); w != "" {
+							return w
+						}
+					}
+				}
+			}
+		}
+	}
+	return ""
 }
